@@ -3,7 +3,8 @@ import itertools
 import re
 from vlib.runner import Spec, Suite
 
-HARNESS = ("h_queue", ["h_queue.cpp"], {})
+# same source as C10's harness, own cache name: builds against a mutated tree (COCLS_REPO) must not evict C10's binary
+HARNESS = ("h_queue_c09", ["h_queue.cpp"], {})
 
 EV_RE = re.compile(r"pop#(\d+)(\+|=(.*))$")
 
@@ -299,7 +300,7 @@ class SchedSuite(Suite):
     def gen_cases(self, rng, tier):
         cases = []
         alpha = ["push", "pop", "upop 3", "deliver 0", "deliver 1"]
-        ln_q, ln_v = (6, 5) if tier == "quick" else (7, 7)
+        ln_q, ln_v = (6, 5) if tier == "quick" else (8, 7)
         for kind, ln in (("sq", ln_q), ("svq", ln_v)):
             for n in range(2, ln + 1):
                 for ops in itertools.product(alpha, repeat=n):
@@ -535,7 +536,7 @@ class ThreadSuite(Suite):
     nontrivial_rule = "at least 2 producers or 2 consumers"
 
     def gen_cases(self, rng, tier):
-        n = 120 if tier == "quick" else 3000
+        n = 120 if tier == "quick" else 5000
         cases = []
         for i in range(n):
             kind = "mtq" if rng.random() < 0.7 else "mtv"
